@@ -56,7 +56,13 @@ def register(M):
                     return len(v.tuple_items())
                 if M.is_dict_subclass(v.cls) and hasattr(v, 'dict_data'):
                     return len(v.dict_data)
-        raise AbsRaise(ExcVal('TypeError', (f'object of type {type(v).__name__} has no len()',)), node)
+        if v is None or isinstance(v, (bool, int, Fr, float, FuncVal)) or (isinstance(v, Sc) and not isinstance(v, Vec)) or \
+                (isinstance(v, Instance) and all(isinstance(b, ClassVal) for b in v.cls.bases)):
+            raise AbsRaise(ExcVal('TypeError', (f'object of type {type(v).__name__} has no len()',)), node)
+        h = getattr(v, 'abs_len', None)
+        if h is not None:
+            return h()
+        raise AnalysisError(f'len() of {type(v).__name__} not modelled', node)
 
     @ext('builtins.sorted')
     def _sorted(interp, args, kw, node):
@@ -263,7 +269,13 @@ def register(M):
                         raise AbsRaise(ExcVal('ValueError', ('dictionary update sequence element',)), node)
                     d[k] = v
             else:
-                raise AbsRaise(ExcVal('TypeError', (f'cannot build OrderedDict from {type(src).__name__}',)), node)
+                if isinstance(src, str):
+                    if src:
+                        raise AbsRaise(ExcVal('ValueError', ('dictionary update sequence element #0 has length 1; 2 is required',)), node)
+                elif isinstance(src, (bool, int, Fr, float)):
+                    raise AbsRaise(ExcVal('TypeError', (f"'{type(src).__name__}' object is not iterable",)), node)
+                else:
+                    raise AnalysisError(f'OrderedDict({type(src).__name__}) not modelled', node)
         d.update(kw)
         return d
 
